@@ -35,9 +35,10 @@ contract(O + "Destinations.send", props=["C08", "C12", "C07", "C13"], shards=6,
          after={"Dest.__call__#0": [("NEW", "NEW + [Ev('offer', self, message, False)]")],
                 "log_message#0": [("NREP", "NREP + 1"), ("REP", "REP + [E] + R"), ("MORE", "MORE + DOFF")]},
          after_raise={"Dest.__call__#0": [("NEW", "NEW + [Ev('offer', self, message, True, exc)]")]},
-         requires=[("current-ok", "cur_ok()"),
-                   ("message-private", "ref(message) != ref(self._globalFields) and "
-                    "private_dict(message)")],
+         requires=[("current-ok", "cur_ok()")],
+         assumes=[("E12 ownership (checked syntactically by ownership_check.py): the message dict is neither the Destinations' _globalFields "
+                   "dict nor an Action's _identification dict, which never escape their objects",
+                   "ref(message) != ref(self._globalFields) and private_dict(message)")],
          modifies=LOGGING_FRAME + ["dict(message)", "field:$uuid_str"],
          loops={0: {"locals": {"NEW": "seqe", "ERRS": "list[sub:Exception]"},
                     "modifies": ["#OFFERS", "#IO", "#NTOP", "seq(ERRS)"],
@@ -87,3 +88,68 @@ contract(O + "Logger.write", props=["C13", "C07", "C08", "C02"],
                   ("failure-is-reported-not-delivered", "implies(not SENT, len(R) >= 2 and serializer is not None)", ["C13"]),
                   ("positions-only-in-current-action", "only_changed('_last_child', curact())"),
                   ("current-ok", "cur_ok()")])
+
+# ------------------------------------------------------------------------------------------------ Destinations.add (C12)
+contract(O + "Destinations.add", props=["C12"], types={"destinations": "tuple[role:Dest]"}, returns="none", shards=2,
+         ghosts={"BUF": "seq", "NSENT": "int", "SENT": "seq"}, ghost_defaults={"NSENT": "0", "SENT": "seq(())"},
+         after={"Destinations.send#0": [("NSENT", "NSENT + 1"), ("SENT", "SENT + [message]")]},
+         aliases={"BUFFERED": 0},
+         requires=[("current-ok", "cur_ok()"),
+                   ("buffering-until-first-add", "implies(not self._any_added, len(seq(self._destinations)) == 1 and isinst(seq(self._destinations)[0], 'BufferingDestination', True))"),
+                   ("buffered-messages-are-private-dicts", "implies(not self._any_added, forall(lambda k: implies(0 <= k and k < len(seq(typed(seq(self._destinations)[0], 'BufferingDestination').messages)), "
+                    "is_dict(seq(typed(seq(self._destinations)[0], 'BufferingDestination').messages)[k])), 'int'))"),
+                   ("destinations-tuple-is-not-the-list", "ref(destinations) != ref(self._destinations)")],
+         modifies=["#LOG", "#OFFERS", "#CALLS", "#IO", "#NTOP", "field:_last_child", "field:$uuid_str", "self._any_added", "self._destinations",
+                   "seq(self._destinations)", "field:$dom", "field:$map"],
+         loops={0: {"locals": {"NSENT": "int", "SENT": "seq"},
+                    "modifies": ["#LOG", "#OFFERS", "#CALLS", "#IO", "#NTOP", "field:_last_child", "field:$uuid_str", "field:$dom", "field:$map"],
+                    "inv": [("each-buffered-message-resent-once-in-order", "NSENT == _i and SENT == _done"),
+                            ("registered-destinations-stable", "seq(self._destinations) == old(seq(destinations)) and self._any_added == True"),
+                            ("current-ok", "cur_ok()")]}},
+         ensures=[("later-adds-extend-the-list", "implies(old(self._any_added), seq(self._destinations) == old(seq(self._destinations)) + old(seq(destinations)) "
+                   "and NSENT == 0 and OFFERS == old(OFFERS) and self._destinations is old(self._destinations))", ["C12"]),
+                  ("first-add-installs-exactly-the-given-destinations", "implies(not old(self._any_added), seq(self._destinations) == old(seq(destinations)) and fresh(self._destinations))", ["C12"]),
+                  ("marked-added", "self._any_added == True", ["C12"]),
+                  ("first-add-resends-every-buffered-message-once-in-order",
+                   "implies(not old(self._any_added), SENT == old(seq(typed(seq(self._destinations)[0], 'BufferingDestination').messages)) and NSENT == len(SENT))", ["C12"])])
+
+# ------------------------------------------------------------------------------------------------ FileDestination (C10, C11, C16)
+contract(O + "FileDestination.__call__", props=["C10", "C11", "C16"], types={"message": "dict"}, returns="none",
+         ghosts={"LINE": "Any", "DUMPED": "Any", "DARGS": "seq", "DDEFAULT": "Any"},
+         after={"Dumps.__call__#0": [("DUMPED", "box(result)"), ("DARGS", "LASTARGS"), ("DDEFAULT", "dget(LASTKW, 'default')")],
+                "File.write#0": [("LINE", "box(data)")]},
+         modifies=["#IO", "#CALLS", "#NTOP"],
+         ensures=[("exactly-one-write-then-one-flush", "IO == old(IO) + [Ev('write', self.file, LINE), Ev('flush', self.file)]", ["C10", "C11", "C16"]),
+                  ("the-line-is-dumps-of-the-message-plus-linebreak", "last(CALLS).tag == 'dumps' and last(CALLS).a == box(self._dumps) and DARGS == [message] "
+                   "and DDEFAULT == box(self._json_default) and DUMPED == last(CALLS).d and is_concat(LINE, DUMPED, self._linebreak)", ["C10"]),
+                  ("message-not-modified", "dict_of(message) == old(dict_of(message))", ["C13"])],
+         raises=[{"cls": "Exception",
+                  "ensures": [("no-partial-line: at most the single write happened", "IO == old(IO) or IO == old(IO) + [Ev('write', self.file, LINE)]", ["C10"])]}])
+
+# ------------------------------------------------------------------------------------------------ MemoryLogger (C16, C14)
+MONITOR_INV = "len(seq(self.messages)) == len(seq(self.serializers))"
+ML_LISTS_SEPARATE = ("ref(self.messages) != ref(self.serializers) and ref(self.messages) != ref(self.tracebackMessages) and "
+                     "ref(self.serializers) != ref(self.tracebackMessages) and ref(self._failed_validations) != ref(self.messages) and "
+                     "ref(self._failed_validations) != ref(self.serializers) and ref(self._failed_validations) != ref(self.tracebackMessages)")
+
+contract(O + "exclusively.exclusively_f", props=["C16"], types={"self": "MemoryLogger", "a": "tuple", "kw": "dict"},
+         free={"f": "role:LockedBody"}, returns="Any", modifies=["*"],
+         ensures=[("body-ran-holding-the-lock-and-released-it", "last(CALLS).tag == 'ret' and last(CALLS).e == True and result == last(CALLS).d and not held(old(self._lock))", ["C16"])],
+         raises=[{"cls": "BaseException", "ensures": [("lock-released-on-exceptional-exit", "last(CALLS).tag == 'exc' and last(CALLS).e == True and not held(old(self._lock))", ["C16"])]}])
+
+contract(O + "MemoryLogger.reset", props=["C16", "C14"], returns="none",
+         modifies=["self.messages", "self.serializers", "self.tracebackMessages", "self._failed_validations"],
+         ensures=[("four-fresh-empty-lists", "seq(self.messages) == [] and seq(self.serializers) == [] and seq(self.tracebackMessages) == [] and "
+                   "seq(self._failed_validations) == [] and fresh(self.messages) and fresh(self.serializers) and fresh(self.tracebackMessages) and fresh(self._failed_validations)", ["C16"]),
+                  ("monitor-invariant", MONITOR_INV + " and " + ML_LISTS_SEPARATE, ["C16"])])
+
+contract(O + "MemoryLogger.flushTracebacks", props=["C16", "C14"], types={"exceptionType": "cls"}, returns="list[dict]",
+         requires=[("monitor-invariant", MONITOR_INV + " and " + ML_LISTS_SEPARATE)],
+         modifies=["self.tracebackMessages"],
+         loops={0: {"locals": {}, "modifies": ["seq(RESULT)", "seq(REMAINING)"],
+                    "inv": [("partition-of-the-processed-prefix", "len(seq(RESULT)) + len(seq(REMAINING)) == _i"),
+                            ("lists-untouched", "seq(self.messages) == old(seq(self.messages)) and seq(self.serializers) == old(seq(self.serializers))")]}},
+         aliases={"RESULT": 0, "REMAINING": 1},
+         ensures=[("every-traceback-flushed-or-kept", "len(seq(result)) + len(seq(self.tracebackMessages)) == len(old(seq(self.tracebackMessages)))", ["C16"]),
+                  ("messages-untouched", "seq(self.messages) == old(seq(self.messages)) and seq(self.serializers) == old(seq(self.serializers))", ["C16"]),
+                  ("monitor-invariant", MONITOR_INV, ["C16"])])
